@@ -17,6 +17,9 @@ def run(tier, seed):
         cases.append(Case('BLS_pubkey_%d' % n, 'crypto', 'zzC05_BLS_pubkey', [n, False]))
         cases.append(Case('BLS_privkey_%d' % n, 'crypto', 'zzC05_BLS_privkey', [n]))
     cases.append(Case('BLS_pubkey_compressedAPI_96', 'crypto', 'zzC05_BLS_pubkey', [96, True]))
+    # BLS signature parsing inside verification: a signature with trailing / missing bytes is not accepted
+    for extra in (-1, 1, 48):
+        cases.append(Case('BLS_sig_appended_%d' % extra, 'crypto', 'zzC01_appended', [extra & ((1 << 64) - 1)], opts={'setup': 'symex.setup_c:with_galg'}))
     cases.sort(key=lambda c: -(c.args[0] in (48, 96, 32)))
     return run_check('C05', cases, tier, seed, setup='symex.setup_c:with_c',
         functions=FUNCS,
